@@ -178,7 +178,7 @@ def do_prop(a):
     # vacuity guards
     vac_errors = []
     if not a.only:
-        if obligations == 0:
+        if obligations == 0 and not undecided_tasks and not error_tasks:
             vac_errors.append("zero obligations generated")
         for key in pm.TARGETS:
             K = REGISTRY[key]
@@ -198,6 +198,16 @@ def do_prop(a):
         tb = time.time()
         try:
             bounded = pm.bounded(a.tier, seed)
+            if dep_keys and os.environ.get("VERIF_NO_DEPS") != "1":
+                # the run-time contracts of the callee contracts this property relies on (same reason as for their
+                # deductive obligations: a change inside a callee shows in the callee's own clauses)
+                from .bounded import run_samplers
+
+                extra_b = run_samplers([k for k in dep_keys if k not in pm.TARGETS], a.tier, seed + 1)
+                bounded["evaluations"] = bounded.get("evaluations", 0) + extra_b["evaluations"]
+                bounded["skipped_outside_requires"] = bounded.get("skipped_outside_requires", 0) + extra_b["skipped_outside_requires"]
+                bounded.setdefault("per_function", {}).update(extra_b["per_function"])
+                bounded.setdefault("failures", []).extend(extra_b["failures"])
             bounded["ran"] = True
             bounded["wall_s"] = round(time.time() - tb, 2)
             bounded_failures = bounded.pop("failures", [])
